@@ -29,7 +29,9 @@ def run(tier):
     counts = {t: con.execute("SELECT count(*) FROM %s" % t).fetchone()[0] for t in ("r", "w", "alt", "e")}
     con.close()
     queries = [("SELECT * FROM alt", "alt", None), ("SELECT id, a, b FROM r", "r", ["id", "a", "b"]), ("select * from w", "w", None),
-               ("SELECT q, p, d1 FROM alt", "alt", ["q", "p", "d1"]), ("SELECT * FROM e", "e", None), ("SELECT rowid, c FROM r", "r", ["rowid", "c"])]
+               ("SELECT q, p, d1 FROM alt", "alt", ["q", "p", "d1"]), ("SELECT * FROM e", "e", None), ("SELECT rowid, c FROM r", "r", ["rowid", "c"]),
+               # `*` is expanded in place, wherever it stands
+               ("SELECT q, * FROM alt", "alt", ["q", "*"]), ("SELECT d1, *, p FROM alt", "alt", ["d1", "*", "p"]), ("SELECT *, * FROM e", "e", ["*", "*"])]
     scen = []
 
     def add(**kw):
@@ -108,7 +110,9 @@ def run(tier):
             t, cols = s["compare"]
             tt = desc["tables"][t]
             allcols = [c["name"] for c in tt["columns"]]
-            want_cols = cols or allcols
+            want_cols = []
+            for c_ in (cols or ["*"]):
+                want_cols += allcols if c_ == "*" else [c_]
             if [c.lower() for c in rs.get("cols") or []] != [c.lower() for c in want_cols]:
                 v.report("C19:columns:%s" % t, "columns of %r are %s, expected %s" % (s["query"], rs.get("cols"), want_cols),
                          lambda s=s, rs=rs: common.write_replay("C19", "cols-%d.json" % s["id"], {"scenario": metas["s%d" % s["id"]], "cols": rs.get("cols")}))
@@ -120,6 +124,27 @@ def run(tier):
             got = [tuple(values.from_jval(j) for j in row) for row in rs.get("rows") or []]
             want = [tuple(values.from_jval(j) for j in row) for row in nat.get("rows") or []]
             pairs.append(({"cls": "%s/%d" % (s["query"], s["id"]), "what": "database/sql %r" % s["query"], "sql": "native Select(%s, %s)" % (t, want_cols)}, got, want))
+    # the same error / fault scenarios under the race detector build: the error hand-off (store, wait group, close of the
+    # channel) must be ordered, an unordered one shows as a data race on the result set's fields
+    hrace = common.build_harness(race=True)
+    rsc = [s for s in scen if s.get("must_fail") or s.get("fail_at")][: (40 if tier == "quick" else 400)]
+    rreq, rout = os.path.join(d, "race-req.ndjson"), os.path.join(d, "race-res.ndjson")
+    common.write_ndjson(rreq, [{k: s[k] for k in s if k in ("id", "db", "query", "next_k", "action", "gomaxprocs", "yield_first", "fail_at", "prepared")} for s in rsc])
+    import subprocess
+    p = subprocess.run([hrace, "driver", rreq, rout], stdout=subprocess.PIPE, stderr=subprocess.PIPE, timeout=1800,
+                       env=dict(os.environ, GORACE="halt_on_error=0 exitcode=66"))
+    rerr = p.stderr.decode("utf-8", "replace")
+    nraces = rerr.count("WARNING: DATA RACE")
+    if p.returncode not in (0, 66):
+        raise Infra("race-detector run of the driver scenarios failed rc=%d: %s" % (p.returncode, rerr[-1000:]))
+    v.cov["race_detector_scenarios"] = len(rsc)
+    v.cov["race_reports"] = nraces
+    if nraces:
+        import re
+        m = re.search(r"WARNING: DATA RACE(.*?)(?:==================|\Z)", rerr, re.S)
+        where = re.findall(r"\n\s+(\S+\(\))\n\s+(\S+:\d+)", m.group(1))[:2] if m else []
+        v.report("C19:data-race:%s" % (where[0][0] if where else "?"), "%d data race reports in the driver's error hand-off, first: %s" % (nraces, where),
+                 lambda: common.write_replay("C19", "race.json", {"reports": nraces, "first": rerr[rerr.find("WARNING: DATA RACE"):][:3000]}))
     results = lockrun.validate(v, schedules, "", "c19", module="TraceDriver", cfg="TraceDriver.cfg", fname="driver.ndjson", reset=True)
     for name, rr in results.items():
         if not rr["accepted"]:
